@@ -102,6 +102,17 @@ def cases(seed, count, order=None, nphi=None, synth_frac=0.4):
     while len(out) < count and tries < 20 * count + 50:
         tries += 1
         c = case_synth(rng, order, nphi) if rng.random() < synth_frac else case_named(rng, None, True, order, nphi)
+        # stratification: the sign pairs and the 'physics switches' are cycled deterministically so that a handful of cases
+        # always contains sG = -1 with I2 != 0, spsi = -1, p2 != 0, sigma0 != 0 (index k = number of accepted cases so far)
+        k = len(out)
+        kw = c['kwargs']
+        kw['sG'], kw['spsi'] = [(-1, -1), (1, -1), (-1, 1), (1, 1)][k % 4]
+        if k % 2 == 0 and not kw.get('I2'):
+            kw['I2'] = float(rng.uniform(0.3, 0.9) * rng.choice([-1, 1]) / max(abs(kw['rc'][0]), 1e-9))
+        if k % 3 != 2 and not kw.get('p2'):
+            kw['p2'] = float(-rng.uniform(0.2, 2.0) * 1e5 * kw.get('B0', 1.0) ** 2 / kw['rc'][0] ** 2)
+        if k % 4 == 1 and not kw.get('sigma0'):
+            kw['sigma0'] = float(rng.uniform(0.1, 0.5) * rng.choice([-1, 1]))
         try:
             q = build(c)
         except Exception as ex:  # construction of an inadmissible random input may fail inside LAPACK
